@@ -86,6 +86,16 @@ def _check_adapter(chk, rule, repo, layout_eval, key, blank_rule=None):
         except Unknown as e:
             raise AnalysisError(f"{where}: cannot decide the result for {desc} ({e}); normal form: {text}")
         good = expect(got)
+        if not good:
+            def free_names(t):
+                if isinstance(t, tuple):
+                    if len(t) == 2 and t[0] == "name" and isinstance(t[1], str) and t[1] not in ("X", "R", "I", "OBJ", "int", "float", "str", "complex", "bool", "len"):
+                        yield t[1]
+                    for x in t:
+                        yield from free_names(x)
+            unknown = sorted(set(free_names(got)))
+            if unknown:
+                raise AnalysisError(f"{where}: the result for {desc} reads {unknown[:3]}, whose value the abstract evaluation does not know ({render(got)}); not decided by the form rule")
         chk.require(
             good, r, where,
             f"{name}: {desc} -> {render(got)}",
